@@ -1,5 +1,6 @@
 import Splipy.Model.Object
 import Splipy.Model.Reparam
+import Splipy.Model.Order
 import Splipy.Lemmas.C06Tensor
 
 /-!
@@ -223,7 +224,33 @@ def whileFuel {σ : Type} : ℕ → σ → (σ → Bool) → (σ → PyM σ) →
   | 0, s, c, _ => if c s then .error .other else .ok s
   | n + 1, s, c, body => if c s then (do let s' ← body s; whileFuel n s' c body) else .ok s
 
+/-- `while cond: body` whose condition may raise (it reads attributes of objects held in the state). -/
+def whileFuelM {σ : Type} : ℕ → σ → (σ → PyM Bool) → (σ → PyM σ) → PyM σ
+  | 0, s, c, _ => do
+    let b ← c s
+    if b then .error .other else .ok s
+  | n + 1, s, c, body => do
+    let b ← c s
+    if b then (do let s' ← body s; whileFuelM n s' c body) else .ok s
+
 /-! ## `BSplineBasis` methods = the hand model -/
+
+/-- `b.roll(new_start)` (in place: the translation writes the result back); the code only rolls by
+    non-negative amounts, a negative one is outside the model.  A start beyond `n - p - k - 1` makes
+    `len_left` negative and the slice assignment `self.knots[:len_left] = self.knots[left]` fail to
+    broadcast (`ValueError`; this is the range guard of `PyBasis_roll_eq`, t1). -/
+def basisRoll (b : Basis K) (i : Int) : PyM (Basis K) :=
+  if i < 0 then .error .other
+  else if b.periodic < 0 then .error .runtime
+  else if (b.order : Int) + b.periodic + 1 + i > (b.knots.size : Int) then .error .value
+  else Basis.roll b i.toNat
+
+/-- `b.continuity(knot)`: `none` = `np.inf`. -/
+def basisContinuity [FloorRing K] (b : Basis K) (tol knot : K) : PyM (Option Int) := Basis.continuity b tol knot
+
+/-- `b.make_periodic(continuity)` (returns a new basis); the callers pass `continuity ≥ 0`. -/
+def basisMakePeriodic (b : Basis K) (tol : K) (c : Int) : PyM (Basis K) :=
+  if c < 0 then .error .other else Basis.makePeriodic b tol c.toNat
 
 /-- `b.snap(p)` on a list: every entry snapped (in place: the translation rebinds `p`). -/
 def basisSnap (b : Basis K) (tol : K) (p : List K) : List K := p.map (snap b tol)
@@ -301,6 +328,116 @@ inductive SliceTok where
 def npIndexSlices (t : Tensor K) (sl : List SliceTok) : PyM (Tensor K) :=
   if t.shape.length < sl.length then .error .index
   else .ok (sl.zipIdx.foldl (fun acc (s, ax) => if s = .rev then acc.flipAxis ax else acc) t)
+
+/-- One entry of a general index tuple: `slice(None, None, None)`, an integer, or `slice(lo, hi, None)`. -/
+inductive IdxTok where
+  | all
+  | at (i : Int)
+  | range (lo hi : Option Int)
+  deriving DecidableEq, Repr, Inhabited
+
+/-- `t[tuple(index)]` (basic indexing, no steps): an integer removes its axis. -/
+def npIndex (t : Tensor K) (ix : List IdxTok) : PyM (Tensor K) :=
+  if t.shape.length < ix.length then .error .index else
+  (ix.foldlM (fun (st : Tensor K × ℕ) (tok : IdxTok) =>
+    match tok with
+    | .all => (pure (st.1, st.2 + 1) : PyM (Tensor K × ℕ))
+    | .range lo hi =>
+      let n := st.1.shape.getD st.2 0
+      pure (st.1.sliceAxis st.2 (sliceLo n lo) (max (sliceLo n lo) (sliceHi n hi)), st.2 + 1)
+    | .at i =>
+      match normIdx (st.1.shape.getD st.2 0) i with
+      | some k => pure (st.1.takeAxis st.2 k, st.2)
+      | none => .error .index) (t, 0)).map (fun (st : Tensor K × ℕ) => st.1)
+
+/-- position `k` along `axis` replaced by the array `v` (of the shape of `t` without that axis) -/
+def putAxis (t : Tensor K) (axis k : ℕ) (v : Tensor K) : Tensor K :=
+  let (_, n, inn) := Tensor.split3 t.shape axis
+  Tensor.build3 t.shape axis n (fun a r i => if r = k then v.get (a * inn + i) else t.at3 axis a r i)
+
+/-- `t[tuple(index)] = v` for an index with exactly one integer among whole-axis slices
+    (any other form is outside the model: `.other`); `v` has the shape of `t[tuple(index)]`. -/
+def npSetIndex (t : Tensor K) (ix : List IdxTok) (v : Tensor K) : PyM (Tensor K) :=
+  if t.shape.length < ix.length then .error .index else
+  match ix.filter (· ≠ .all) with
+  | [.at i] =>
+    let ax := ix.findIdx (· ≠ .all)
+    match normIdx (t.shape.getD ax 0) i with
+    | some k => if v.shape = t.shape.eraseIdx ax then .ok (putAxis t ax k v) else .error .value
+    | none => .error .index
+  | _ => .error .other
+
+/-- `x * t`, `a + b` on arrays. -/
+def tScale (x : K) (t : Tensor K) : Tensor K :=
+  { shape := t.shape, data := Array.ofFn (n := t.data.size) (fun k => x * t.get k.val) }
+def tPlus (a b : Tensor K) : Tensor K :=
+  { shape := a.shape, data := Array.ofFn (n := a.data.size) (fun k => a.get k.val + b.get k.val) }
+
+/-- `np.linspace(a, b, n)`. -/
+def npLinspace (a b : K) (n : Int) : List K :=
+  if n = 1 then [a]
+  else (List.range n.toNat).map (fun (i : ℕ) => a + (i : K) * ((b - a) / ((n : K) - 1)))
+
+/-- `xs[s]` for a slice object `s = slice(lo, hi, None)`. -/
+def sliceTok {α : Type} (xs : List α) : IdxTok → PyM (List α)
+  | .range lo hi => .ok (slice xs lo hi)
+  | .all => .ok xs
+  | .at _ => .error .other
+
+/-- The idiom `C = [c for c in SplineObject.__subclasses__() if c._intended_pardim == n][0]; C(*bases, cps,
+    rational, raw=True)`: `IndexError` unless `n ∈ {1, 2, 3}` (Curve, Surface, Volume); the subclass constructors
+    pass their arguments on to `SplineObject.__init__`, whose `raw=True` path clones the bases and stores
+    `np.array(controlpoints)`, `dimension = shape[-1] - rational`.  `TypeError` when the number of bases is not `n`. -/
+def ctorFirst (n : Int) : PyM Int := if 1 ≤ n ∧ n ≤ 3 then .ok n else .error .index
+
+def mkRaw (n : Int) (bases : Array (Basis K)) (cps : Tensor K) (rational : Bool) : PyM (PyObj K) :=
+  if (bases.size : Int) = n then
+    if cps.shape = [] then .error .index      -- `self.controlpoints.shape[-1]` of a 0-d array
+    else .ok { bases := bases, controlpoints := cps, dimension := (cps.shape.getLastD 0 : ℕ) - b2i rational, rational := rational }
+  else .error .type
+
+/-- `SplineObject(bases, controlpoints, rational, raw=True)` (the base class: any number of bases). -/
+def mkRawObj (bases : Array (Basis K)) (cps : Tensor K) (rational : Bool) : PyM (PyObj K) :=
+  if cps.shape = [] then .error .index
+  else .ok { bases := bases, controlpoints := cps, dimension := (cps.shape.getLastD 0 : ℕ) - b2i rational, rational := rational }
+
+/-! ## sections (t3b) -/
+
+/-- `utils.check_section(*args, pardim=…, **kwargs)` (PINNED source; translated statement by statement by
+    `harness/translate/sections_translate.py` for property C15): pad with `None` up to `pardim`, then
+    `args['uvw'.index(k)] = kwargs[k]` for the keywords `u`, `v`, `w` that are present (`kw` = those, as
+    (position, value); the iteration order of the Python `set` is irrelevant: distinct positions, one error kind). -/
+def pyCheckSection (args : List (Option Int)) (kw : List (ℕ × Option Int)) (pardim : Int) : PyM (List (Option Int)) :=
+  let a := args ++ List.replicate (pardim.toNat - args.length) none
+  kw.foldlM (fun a x => if x.1 < a.length then .ok (a.set x.1 x.2) else .error .index) a
+
+/-- `[f(x) for x in xs if c(x)]`. -/
+def listCompIf {α β : Type} : List α → (α → PyM (Bool × β)) → PyM (List β)
+  | [], _ => pure []
+  | x :: xs, f => do
+    let y ← f x
+    let ys ← listCompIf xs f
+    pure (if y.1 then y.2 :: ys else ys)
+
+/-- `BSplineBasis(order, knots)` (non-periodic). -/
+def mkBasis (order : Int) (knots : List K) (tol : K) : PyM (Basis K) :=
+  if order < 0 then .error .value else Basis.mk? order.toNat knots.toArray (-1) tol
+
+/-- an int-or-`np.inf` used as a repetition count (`[k] * m`): `inf` is a float, `TypeError`. -/
+def extCount : Option Int → PyM Int
+  | some i => .ok i
+  | none => .error .type
+
+/-- `bisect.bisect_left(xs, v)` on a whole sequence (the model's literal binary search). -/
+def pyBisectLeft (xs : List K) (v : K) : Int := (bisectLeft (fun i => xs.getD i 0) v xs.length : ℕ)
+
+/-- `bisect_left(b.knots, v)`. -/
+def bisectLeftKnots (b : Basis K) (v : K) : Int := (b.bisectL v : ℕ)
+
+/-- What `split` returns: the opened object itself, or a list of pieces. -/
+inductive PyRes (K : Type) where
+  | obj : PyObj K → PyRes K
+  | objs : List (PyObj K) → PyRes K
 
 /-- `np.roll(t, k, axis)`. -/
 def npRoll (t : Tensor K) (k : Int) (axis : Int) : PyM (Tensor K) :=
@@ -425,5 +562,168 @@ def matSetButLastCol (M A : Mat K) : PyM (Mat K) :=
   if M.size = A.size ∧ (List.range M.size).all (fun i => (A.getD i #[]).size + 1 = (M.getD i #[]).size) then
     .ok (Array.ofFn (n := M.size) (fun i => (A.getD i.val #[]).push ((M.getD i.val #[]).getD ((M.getD i.val #[]).size - 1) 0)))
   else .error .value
+
+/-! ## order elevation / reduction (t3b) -/
+
+/-- `any(f(x) for x in xs)` with a body that may raise: left to right, stops at the first `True`. -/
+def anyM {α : Type} : List α → (α → PyM Bool) → PyM Bool
+  | [], _ => pure false
+  | x :: xs, f => do
+    let y ← f x
+    if y then pure true else anyM xs f
+
+/-- `all(f(x) for x in xs)` with a body that may raise: left to right, stops at the first `False`. -/
+def allM {α : Type} : List α → (α → PyM Bool) → PyM Bool
+  | [], _ => pure true
+  | x :: xs, f => do
+    let y ← f x
+    if y then allM xs f else pure false
+
+/-- `c < n` for an int-or-`np.inf` `c`: `inf < n` is `False`. -/
+def extLt (c : Option Int) (n : Int) : Bool :=
+  match c with
+  | none => false
+  | some c => decide (c < n)
+
+/-- `b.greville()` as a sequence. -/
+def basisGreville (b : Basis K) : PyM (List K) := do
+  let g ← Basis.greville b
+  pure g.toList
+
+/-- `b.raise_order(r)` / `b.lower_order(l)`: new basis objects (hand model, t1). -/
+def basisRaiseOrder [FloorRing K] (b : Basis K) (tol : K) (r : Int) : PyM (Basis K) := Basis.raiseOrderInt b tol r
+def basisLowerOrder [FloorRing K] (b : Basis K) (tol : K) (l : Int) : PyM (Basis K) := Basis.lowerOrder b tol l
+
+/-- `np.linalg.inv(A)`: IDEALISED as the hand model's certified exact inverse (`Mat.invChecked`:
+    Gauss–Jordan, accepted only after `Ai · A = I` has been checked; `LinAlgError` otherwise). -/
+def npLinalgInv (A : Mat K) : PyM (Mat K) := Mat.invChecked A
+
+/-! ## affine maps and operators (t3b) -/
+
+/-- `ensure_flatlist(args)` on a tuple of numbers-or-sequences: `args[0]` if that is `Sized` (the
+    rest is dropped; its entries are numbers), otherwise `args` itself; `IndexError` on `()`. -/
+def ensure_flatlist_p : List (Param K) → PyM (List (Param K))
+  | [] => .error .index
+  | .list v :: _ => .ok (v.map .scalar)
+  | args => .ok args
+
+/-- storing `x` into one entry of a float matrix: a sequence is numpy's `ValueError`
+    ("setting an array element with a sequence"). -/
+def paramScalar : Param K → PyM K
+  | .scalar x => .ok x
+  | .list _ => .error .value
+
+/-- `1.0 / x` for a number (`ZeroDivisionError`) or, element-wise, for a 1-d array (IDEALISED like the
+    hand model `AffOp.recip`: an exact field has no `inf`, a zero entry is reported as `ZeroDivisionError`). -/
+def paramRecip : Param K → PyM (Param K)
+  | .scalar x => if x = 0 then .error .zeroDiv else .ok (.scalar (1 / x))
+  | .list xs => if xs.any (· = 0) then .error .zeroDiv else .ok (.list (xs.map (1 / ·)))
+
+/-- `-np.array(x)`, `np.array(x) / s`, `np.array(x) * s`, `np.dot(x, y)` on 1-d arrays
+    (`np.dot` of different lengths is a numpy shape error, not modelled: the shorter length is used). -/
+def listNeg (xs : List K) : List K := xs.map (- ·)
+def listDivS (xs : List K) (s : K) : List K := xs.map (· / s)
+def listMulS (xs : List K) (s : K) : List K := xs.map (· * s)
+def listDot (xs ys : List K) : K := (List.zipWith (· * ·) xs ys).foldl (· + ·) 0
+
+/-- `np.outer(x, y)`. -/
+def npOuter (xs ys : List K) : Mat K := (xs.map (fun x => (ys.map (fun y => x * y)).toArray)).toArray
+
+/-- `c * M` for a 2-d array. -/
+def matScale (c : K) (M : Mat K) : Mat K := M.map (fun row => row.map (fun x => c * x))
+
+/-- `np.array([[..], [..]])`: rows of different lengths are a `ValueError` (inhomogeneous shape). -/
+def matOfRows (rows : List (List K)) : PyM (Mat K) :=
+  if rows.all (fun r => r.length = (rows.headD []).length) then .ok (rows.map List.toArray).toArray else .error .value
+
+/-- `a, b, c = xs`. -/
+def unpack3 {α : Type} (xs : List α) : PyM (α × α × α) :=
+  match xs with
+  | [a, b, c] => .ok (a, b, c)
+  | _ => .error .value
+
+/-- numpy broadcasting of a block `A` against the slot `(nr, nc)`: equal shape, or a length-1 axis
+    is repeated; anything else is a `ValueError`. -/
+def bcast (A : Mat K) (nr nc : ℕ) : PyM (ℕ → ℕ → K) :=
+  let ar := A.size
+  let ac := (A.getD 0 #[]).size
+  if (ar = nr ∨ ar = 1) ∧ (ac = nc ∨ ac = 1) ∧ A.all (fun r => r.size = ac) then
+    .ok (fun i j => (A.getD (if ar = 1 then 0 else i) #[]).getD (if ac = 1 then 0 else j) 0)
+  else .error .value
+
+/-- `M[0:r, 0:c] = A` / `M[0:r, 0:c] -= A` on a 2-d array whose rows have `≥ c` entries (numpy clamps
+    the slice bounds; negative bounds are not modelled: `ValueError`). -/
+def matBlockUpd (M : Mat K) (r c : Int) (A : Mat K) (f : K → K → K) : PyM (Mat K) :=
+  if r < 0 ∨ c < 0 then .error .value else
+  let nr := min r.toNat M.size
+  let nc := min c.toNat (M.getD 0 #[]).size
+  match bcast A nr nc with
+  | .error e => .error e
+  | .ok g => .ok (Array.ofFn (n := M.size) (fun i =>
+      Array.ofFn (n := (M.getD i.val #[]).size) (fun j =>
+        if i.val < nr ∧ j.val < nc then f ((M.getD i.val #[]).getD j.val 0) (g i.val j.val)
+        else (M.getD i.val #[]).getD j.val 0)))
+
+def matBlockSet (M : Mat K) (r c : Int) (A : Mat K) : PyM (Mat K) := matBlockUpd M r c A (fun _ a => a)
+def matBlockSub (M : Mat K) (r c : Int) (A : Mat K) : PyM (Mat K) := matBlockUpd M r c A (fun m a => m - a)
+
+/-- What `SplineObject.section` returns: an object, or (a point with `unwrap_points=True`) the bare control point. -/
+inductive PySec (K : Type) where
+  | obj (o : PyObj K)
+  | point (t : Tensor K)
+
+/-- `slice(None) if p is None else p`. -/
+def selTok : Option Int → IdxTok
+  | none => .all
+  | some i => .at i
+
+/-- `utils.sections(src_dim, tgt_dim)` (PINNED generator; translated by `sections_translate.py`, C15): every
+    choice of `src - tgt` fixed directions (`itertools.combinations`, `ValueError` for a negative count), each
+    with every `{0, -1}` pattern (`itertools.product`, the pattern reversed). -/
+def pyCombos : List ℕ → ℕ → List (List ℕ)
+  | _, 0 => [[]]
+  | [], _+1 => []
+  | x :: xs, r+1 => (pyCombos xs r).map (x :: ·) ++ pyCombos xs (r+1)
+
+def pyProd01 : ℕ → List (List Int)
+  | 0 => [[]]
+  | n+1 => (pyProd01 n).map ((0 : Int) :: ·) ++ (pyProd01 n).map ((-1 : Int) :: ·)
+
+def pyAssign : List (Option Int) → List ℕ → List Int → List (Option Int)
+  | a, f :: fs, i :: is => pyAssign (a.set f (some i)) fs is
+  | a, _, _ => a
+
+def pySections (src tgt : Int) : PyM (List (List (Option Int))) :=
+  if src < tgt then .error .value else
+  let nfixed := (src - tgt).toNat
+  .ok ((pyCombos (List.range src.toNat) nfixed).flatMap (fun fixed =>
+    (pyProd01 nfixed).map (fun indices => pyAssign (List.replicate src.toNat none) fixed indices.reverse)))
+
+/-- `enumerate(xs)`. -/
+def pyEnumerate {α : Type} (xs : List α) : List (Int × α) :=
+  (List.zip (List.range xs.length) xs).map (fun x => ((x.1 : ℕ), x.2))
+
+/-- `b ** e` on ints: a negative exponent gives a float, which no caller here accepts (`TypeError` at its use). -/
+def intPow (b e : Int) : PyM Int := if e < 0 then .error .type else .ok (b ^ e.toNat)
+
+/-- `np.zeros((n, m))`. -/
+def npZeros2 (n m : Int) : PyM (Mat K) :=
+  if n < 0 ∨ m < 0 then .error .value else .ok (Array.replicate n.toNat (Array.replicate m.toNat 0))
+
+/-- `M[i, :] = v` for the value returned by `section`: an object cannot be stored in a float array
+    (`TypeError`); an array is broadcast the numpy way (leading axes of length 1 are dropped; then it is
+    a row of the right length or a single number), otherwise `ValueError`. -/
+def matSetRowSec (M : Mat K) (i : Int) (v : PySec K) : PyM (Mat K) :=
+  match v with
+  | .obj _ => .error .type
+  | .point t =>
+    match normIdx M.size i with
+    | none => .error .index
+    | some r =>
+      let n := (M.getD r #[]).size
+      let sh := t.shape.dropWhile (· = 1)
+      if sh = [n] then .ok (M.set! r (Array.ofFn (n := n) (fun j => t.data.getD j.val 0)))
+      else if sh = [] then .ok (M.set! r (Array.replicate n (t.data.getD 0 0)))
+      else .error .value
 
 end Splipy.PyO
